@@ -109,7 +109,7 @@ import re
 import tempfile
 import warnings
 from email import message_from_bytes
-from email.message import EmailMessage, Message
+from email.message import Message
 from io import BufferedIOBase, BytesIO, TextIOWrapper
 from time import gmtime, time
 from typing import (
@@ -306,7 +306,9 @@ def _parseContentType(line: bytes) -> bytes:
     """
     Parse the Content-Type header.
     """
-    msg = EmailMessage()
+    # The legacy Message API stores the value without validating it, and
+    # falls back to a default type instead of raising on odd values.
+    msg = Message()
     msg["content-type"] = line.decode("charmap")
     key = msg.get_content_type()
     encodedKey = key.encode("charmap")
